@@ -187,9 +187,27 @@ pub fn check(case: &Case, obs: &mut Obs) -> Result<(), Fail> {
                 }
             })
         };
+        // (start, end, pair) of every connectivity fault injected so far; None = everybody
+        let fault_log: Arc<Mutex<Vec<(u64, u64, Option<(usize, usize)>)>>> = Arc::new(Mutex::new(Vec::new()));
+        let excused = Arc::new(std::sync::atomic::AtomicU64::new(0));
         let evaluate = |tracker: &Arc<Mutex<Tracker>>, what: &str| -> Result<(), Fail> {
             let mut tr = tracker.lock().unwrap();
             for (a, b, from, to, cause, rtt, idle) in tr.over.drain(..) {
+                // The statement speaks about connectivity that has been fault-free for longer than the idle
+                // timeout: while a partition or loss burst between the two is still going on (or ended less
+                // than an idle timeout ago) a one-sided view is not yet a violation - e.g. a dialer whose
+                // acknowledgement is being dropped keeps hearing the listener's retransmissions until the
+                // listener's connect timeout. The period is therefore measured from the end of the last
+                // fault that touched the pair. (A crash is an event, not an ongoing fault.)
+                let b_idx = ids.iter().position(|p| p.0 == b);
+                let clean_from = fault_log.lock().unwrap().iter()
+                    .filter(|(t0, _, pair)| *t0 < to && pair.map_or(true, |(x, y)| Some(x) == b_idx && y == a || x == a && Some(y) == b_idx))
+                    .map(|(_, t1, _)| (*t1).min(to)).max().unwrap_or(0).max(from);
+                if to - clean_from <= idle + SLACK_MS {
+                    excused.fetch_add(1, std::sync::atomic::Ordering::Relaxed);
+                    continue;
+                }
+                let from = clean_from;
                 let len = to - from;
                 // two transport-level causes are known findings (F5a/F5b); everything else is fresh
                 let key = if len <= 2 * idle + SLACK_MS && cause {
@@ -312,6 +330,7 @@ pub fn check(case: &Case, obs: &mut Obs) -> Result<(), Fail> {
                     if a == b { continue; }
                     let t0 = sim.now_ms();
                     if *ms as u64 > idle { n_long_fault += 1; }
+                    fault_log.lock().unwrap().push((t0, t0 + *ms as u64, Some((a as usize, b as usize))));
                     sim.fabric.add_fault(FaultSeg { t0_ms: t0, t1_ms: t0 + *ms as u64, from: Some(a), to: Some(b), partition: true, ..Default::default() });
                     if !one_way {
                         sim.fabric.add_fault(FaultSeg { t0_ms: t0, t1_ms: t0 + *ms as u64, from: Some(b), to: Some(a), partition: true, ..Default::default() });
@@ -319,6 +338,7 @@ pub fn check(case: &Case, obs: &mut Obs) -> Result<(), Fail> {
                 }
                 Op::Loss { pm, ms } => {
                     let t0 = sim.now_ms();
+                    fault_log.lock().unwrap().push((t0, t0 + *ms as u64, None));
                     sim.fabric.add_fault(FaultSeg { t0_ms: t0, t1_ms: t0 + *ms as u64, loss_pm: *pm, ..Default::default() });
                 }
                 Op::Wait(ms) => sleep_ms(*ms as u64).await,
@@ -384,7 +404,7 @@ impl Part for Histories {
     type Case = Case;
     fn name(&self) -> &'static str { "histories" }
     fn rule(&self) -> &'static str {
-        "2-5 networks (idle timeout 3.5-12 s, keep-alive off or at 10-98 % of the idle timeout; shorter idle timeouts are not generated because QUIC floors the idle period at 3 PTO, which is up to ~3 s before RTT samples exist): per-node idle timeouts may differ (each node's own value bounds how long it may keep a dead entry); histories of connect, connect_with_peer_id, disconnect, rpc, graceful shutdown + restart, crash (black-hole, nothing closed) + restart with the same key on a fresh address, pairwise and ONE-DIRECTIONAL partitions, loss bursts, waits; views sampled every 100 ms of virtual time; oracle: (1) no period during which A lists B while B does not list A exceeds idle timeout + 500 ms slack; (2) after a fault-free tail views are mutual and every listed peer answers an RPC; (3) disconnect removes at once, the next event for that peer is LostPeer(Requested), RPCs to it fail until reconnected; a one-sided period in (idle+slack, 2*idle+slack] whose stale side transmitted after its last receipt is the known finding F5; non-trivial = a partition/crash longer than the idle timeout, or a disconnect followed by a reconnect; distinct by history"
+        "2-5 networks (idle timeout 3.5-12 s, keep-alive off or at 10-98 % of the idle timeout; shorter idle timeouts are not generated because QUIC floors the idle period at 3 PTO, which is up to ~3 s before RTT samples exist): per-node idle timeouts may differ (each node's own value bounds how long it may keep a dead entry); histories of connect, connect_with_peer_id, disconnect, rpc, graceful shutdown + restart, crash (black-hole, nothing closed) + restart with the same key on a fresh address, pairwise and ONE-DIRECTIONAL partitions, loss bursts, waits; views sampled every 100 ms of virtual time; oracle: (1) no period during which A lists B while B does not list A lasts longer than idle timeout + 500 ms slack, counted from the end of the last partition or loss burst that touched the pair (a crash is an event, not an ongoing fault); (2) after a fault-free tail views are mutual and every listed peer answers an RPC; (3) disconnect removes at once, the next event for that peer is LostPeer(Requested), RPCs to it fail until reconnected; a one-sided period in (idle+slack, 2*idle+slack] whose stale side transmitted after its last receipt is the known finding F5; non-trivial = a partition/crash longer than the idle timeout, or a disconnect followed by a reconnect; distinct by history"
     }
     fn strategy(&self, _t: Tier) -> BoxedStrategy<Case> {
         let op = prop_oneof![
